@@ -7,9 +7,8 @@
 use crate::exec::PanicClass;
 use crate::json::{hex, unhex, J};
 use crate::refint;
-use crate::simrng::{BudgetExceeded, SimRng};
-use crate::types::{Ctor, TyObj};
-use std::panic::{catch_unwind, AssertUnwindSafe};
+use crate::simrng::SimRng;
+use crate::types::TyObj;
 use std::sync::atomic::{AtomicU32, AtomicU64, AtomicU8, Ordering};
 
 #[derive(Clone, Copy, Debug, PartialEq, Eq, PartialOrd, Ord)]
@@ -121,7 +120,6 @@ pub fn sweep_one(ty: &dyn TyObj, job: &SweepJob, threads: usize) -> SweepOutcome
     assert!(wbytes <= 4, "sweeps need W <= 32");
     let wbits = (wbytes * 8) as u32;
     let nwords: u64 = 1u64 << wbits;
-    let signed = ty.signed();
     let r: u64 = match refint::range_size(&job.low, &job.high_incl) {
         Some(r) => refint::to_u64(&r).unwrap(),
         None => nwords,
@@ -138,53 +136,37 @@ pub fn sweep_one(ty: &dyn TyObj, job: &SweepJob, threads: usize) -> SweepOutcome
 
     let worker = |from: u64, to: u64| {
         let mut rng = SimRng::for_sweep(0x5EED_0000 ^ from);
-        let sampler = match job.entry {
-            Entry::UniInc => Some(ty.uniform(&job.low, &job.high_incl, true, Ctor::Val)),
-            Entry::UniExc => Some(ty.uniform(&job.low, &high_api, false, Ctor::Val)),
-            _ => None,
-        };
         let mut acc = 0u64;
         let mut rej = 0u64;
-        for word in from..to {
-            rng.sweep_arm(word as u32);
-            let res = catch_unwind(AssertUnwindSafe(|| match job.entry {
-                Entry::UniInc | Entry::UniExc => sampler.as_ref().unwrap().sample(&mut rng, false),
-                Entry::SingleInc => ty.sample_single(&job.low, &job.high_incl, true, false, &mut rng, false),
-                Entry::SingleExc => ty.sample_single(&job.low, &high_api, false, false, &mut rng, false),
-                Entry::GenRangeInc => ty.gen_range(&job.low, &job.high_incl, true, &mut rng, false),
-            }));
-            let st = rng.sweep.as_ref().unwrap();
-            let (requests, first_len) = (st.requests, st.first_len);
-            match res {
-                Err(payload) => {
-                    let class = if payload.is::<BudgetExceeded>() { "sweep_no_return" } else { "sweep_panic" };
-                    let msg = crate::exec::take_last_panic();
-                    let mut g = first_viol.lock().unwrap();
-                    if g.as_ref().map(|x| word < x.0).unwrap_or(true) {
-                        *g = Some((word, SweepViolation { class, detail: format!("first word {:#x}: call did not return normally ({})", word, if class == "sweep_no_return" { "draw budget exhausted while fresh words were flowing".to_string() } else { msg }) }));
-                    }
-                    return (acc, rej);
+        let mut sink = |word: u64, val: u64, requests: u32, first_len: u32| -> bool {
+            if requests >= 1 && first_len as usize != wbytes {
+                wrong_width.store(first_len as u64, Ordering::Relaxed);
+                return false;
+            }
+            // membership in exact integer arithmetic on the bit patterns: offset from low, modulo 2^W
+            let off = val.wrapping_sub(low_u) & mask;
+            if off >= r || (val & !mask) != 0 {
+                let mut g = first_viol.lock().unwrap();
+                if g.as_ref().map(|x| word < x.0).unwrap_or(true) {
+                    *g = Some((word, SweepViolation { class: "sweep_membership", detail: format!("first word {:#x} ({} request(s)) returned {:#x} outside [{}, {}]", word, requests, val, hex(&job.low), hex(&job.high_incl)) }));
                 }
-                Ok(v) => {
-                    if requests >= 1 && first_len as usize != wbytes {
-                        wrong_width.store(first_len as u64, Ordering::Relaxed);
-                        return (acc, rej);
-                    }
-                    if v.len() != wbytes || !refint::in_range(signed, &job.low, &job.high_incl, &v) {
-                        let mut g = first_viol.lock().unwrap();
-                        if g.as_ref().map(|x| word < x.0).unwrap_or(true) {
-                            *g = Some((word, SweepViolation { class: "sweep_membership", detail: format!("first word {:#x} ({} request(s)) returned {} outside [{}, {}]", word, requests, hex(&v), hex(&job.low), hex(&job.high_incl)) }));
-                        }
-                        return (acc, rej);
-                    }
-                    if requests == 1 {
-                        acc += 1;
-                        let off = (le_word(&v).wrapping_sub(low_u)) & mask;
-                        counts.bump(off);
-                    } else {
-                        rej += 1;
-                    }
-                }
+                return false;
+            }
+            if requests == 1 {
+                acc += 1;
+                counts.bump(off);
+            } else {
+                rej += 1;
+            }
+            true
+        };
+        let res = ty.sweep_kernel(&job.low, &high_api, job.entry, from, to, &mut rng, &mut sink);
+        if let Err((word, budget)) = res {
+            let class = if budget { "sweep_no_return" } else { "sweep_panic" };
+            let msg = crate::exec::take_last_panic();
+            let mut g = first_viol.lock().unwrap();
+            if g.as_ref().map(|x| word < x.0).unwrap_or(true) {
+                *g = Some((word, SweepViolation { class, detail: format!("first word {:#x}: call did not return normally ({})", word, if budget { "draw budget exhausted while fresh words were flowing".to_string() } else { msg }) }));
             }
         }
         (acc, rej)
